@@ -11,6 +11,8 @@ import (
 	"sync"
 	"time"
 
+	"go/types"
+
 	"golang.org/x/tools/go/ssa"
 )
 
@@ -139,6 +141,14 @@ func runDriver(args []string) int {
 		underContract = append(underContract, n)
 		for _, u := range vc.Unsupported {
 			machineryErrs = append(machineryErrs, n+": "+u)
+		}
+	}
+	// package-level obligations: frozen constants, and package variables that are only set by initialisation
+	if pvc := PackageVC(w, prop); pvc != nil && len(pvc.Obls) > 0 {
+		vcs = append(vcs, pvc)
+		underContract = append(underContract, pvc.Name)
+		for _, u := range pvc.Unsupported {
+			machineryErrs = append(machineryErrs, pvc.Name+": "+u)
 		}
 	}
 	for _, e := range w.Errors {
@@ -489,3 +499,57 @@ func writeReplay(w *World, prop string, o *Obligation, known []KnownFinding) str
 }
 
 var _ = ssa.BuilderMode(0)
+
+// PackageVC builds the obligations that do not belong to a function: "const" clauses
+// (format constants against frozen literals) and, for every in-package variable a
+// globalinv talks about, that no function other than package initialisation stores to it.
+func PackageVC(w *World, prop string) *FnVC {
+	vc := &FnVC{Name: "package ice", BlockAt: map[int]string{}}
+	for i, c := range w.Spec.Consts {
+		props := strings.Split(c[1], ",")
+		if !hasProp(props, prop) {
+			continue
+		}
+		ex, err := ParseSpecExpr(c[0])
+		if err != nil {
+			vc.Unsupported = append(vc.Unsupported, fmt.Sprintf("%s: const %q: %v", c[2], c[0], err))
+			continue
+		}
+		env := &Env{w: w, names: map[string]TV{}, st: NewState(), old: NewState(), lets: map[string]SExpr{}}
+		t, err := env.EvalBool(ex)
+		if err != nil {
+			vc.Unsupported = append(vc.Unsupported, fmt.Sprintf("%s: const %q: %v", c[2], c[0], err))
+			continue
+		}
+		vc.Obls = append(vc.Obls, &Obligation{Name: fmt.Sprintf("package/const#%d:%s", i, clip(c[0], 40)), Class: "const", Props: props, Func: "package ice",
+			Desc: "format constant: " + c[0], Pos: c[2], Guard: True, Goal: t, Claimed: true})
+	}
+	seen := map[string]bool{}
+	for _, gi := range w.Spec.GlobalInvs {
+		toks, _ := lexSpec(gi[0])
+		for _, tk := range toks {
+			if tk.kind != "id" || seen[tk.s] {
+				continue
+			}
+			v, ok := w.TPkg.Scope().Lookup(tk.s).(*types.Var)
+			if !ok || v == nil {
+				continue
+			}
+			seen[tk.s] = true
+			for _, f := range w.FnAll {
+				n := w.FnName(f)
+				if strings.HasPrefix(n, "init") {
+					continue
+				}
+				if w.baseMods[f]["G$"+tk.s] {
+					vc.Obls = append(vc.Obls, &Obligation{Name: fmt.Sprintf("package/global-frame:%s:%s", tk.s, n), Class: "globalframe", Props: []string{prop}, Func: "package ice",
+						Desc: fmt.Sprintf("package variable %s (fact: %s) is stored by %s", tk.s, gi[0], n), Pos: gi[1], Guard: True, Goal: False, Claimed: true})
+				}
+			}
+			// positive obligation so that the check is visible in the counts
+			vc.Obls = append(vc.Obls, &Obligation{Name: "package/global-frame:" + tk.s, Class: "globalframe", Props: []string{prop}, Func: "package ice",
+				Desc: fmt.Sprintf("package variable %s is stored only by package initialisation (mod-set scan over %d functions)", tk.s, len(w.FnAll)), Pos: gi[1], Guard: True, Goal: True, Claimed: true})
+		}
+	}
+	return vc
+}
